@@ -308,6 +308,9 @@ class Driver:
             dt = dt.replace(tzinfo=datetime.timezone(datetime.timedelta(minutes=t["tz"])))
         how = t.get("as", "dt")
         if how == "dt":
+            if dt.tzinfo is not None and dt.second % 3 == 0:
+                # an instance of a datetime subclass (pandas.Timestamp, pendulum ...) is the datetime it is
+                return interp.AwareDT(dt.year, dt.month, dt.day, dt.hour, dt.minute, dt.second, dt.microsecond, dt.tzinfo), dt
             return dt, dt
         s = dt.isoformat()
         if how == "iso_z" and t["tz"] == 0:
